@@ -21,6 +21,7 @@ package crypto
 //@   ensures  [cap]    len($r0) <= max(old(len(buf)), max(n, m))
 //@   ensures  [prefix] forall k int :: 0 <= k && k < old(len(buf)) ==> $r0[k] == old(buf[k])
 //@   ensures  [bytes]  forall k int :: old(len(buf)) <= k && k < len($r0) ==> $r0[k] == streamAt(conn, old(consumed(conn)) + k - old(len(buf)))
+//@   ensures  [tail]   old(Tail(buf, conn)) ==> Tail($r0, conn)
 //@   props    C07
 
 // DefaultOptions: the policy is well-formed for both switches: force implies
@@ -42,10 +43,11 @@ package crypto
 //@   ensures  [forbidden] !options.AllowCryptoHandshake ==> err != nil
 //@   ensures  [forced]    old(options.ForceEncryption) && err == nil ==> conn != c
 //@   ensures  [plain]     !old(options.AllowEncryption) && err == nil ==> conn == c
-// NOT claimed (attempted, backed out): "when the peer selects plaintext the
-// surplus handed on is Tail(buf, c)" -- synchronise now carries the positional
-// clause ([tailout]), but the chain ReadAtLeast / slice / synchronise / readMore
-// through this 150-line function was not discharged within the time limit.
+// NOT claimed (attempted twice, backed out): "when the peer selects plaintext the
+// surplus handed on is Tail(buf, c)". readMore and synchronise now carry the
+// positional clause ([tail], [tailout]) and hash/xor/NewCipher/XORKeyStream/
+// SetBytes no longer havoc the receive buffer, but the last step (two slicings
+// by a symbolic pad length, then the copy) was not discharged within 10 s.
 //@   focus    post:forbidden, post:forced, post:plain
 //@   props    C08
 
@@ -84,6 +86,24 @@ package crypto
 //@   sig func(c *rc4.Cipher, dst []byte, src []byte)
 //@   requires len(dst) >= len(src)
 //@   modifies dst[_], heap:crypto/rc4.*
+
+//@ extern crypto/rc4.NewCipher
+//@   import "crypto/rc4"
+//@   sig func(key []byte) (c *rc4.Cipher, err error)
+//@   alloc    2048
+//@   ensures  err == nil ==> c != nil && fresh_(c)
+
+// hash (SHA-1 of the concatenation) and xor only read their arguments and
+// return a slice of their own. hash is ASSUMED (trusted: its body drives a
+// hash.Hash through an interface); xor is proved.
+//@ func hash
+//@   trusted
+//@   ensures  len($r0) == 20 && fresh_($r0)
+//@   props    C07
+//@ func xor
+//@   requires len(v1) == len(v2)
+//@   ensures  [len] len($r0) == len(v1) && fresh_($r0)
+//@   props    C07
 
 // Tail(w, c): w is, byte for byte, the LAST len(w) bytes taken out of stream c.
 //@ spec Tail(w []byte, c any) bool
